@@ -170,6 +170,10 @@ def skeleton(body):
             more = ":more" if re.search(r",\s*true\s*$", args.strip()) else ""
             first = re.sub(r",\s*(?:true|false)\s*$", "", args.strip())
             first = re.sub(r"&\s*mut\s+|&|\s+", "", first)
+            # names of local buffers carry no meaning (renaming them is harmless): keep the argument
+            # only when it says WHAT is absorbed (a field / method of self, a call)
+            if not ("self." in first or "(" in first):
+                first = "_"
             toks.append("%s(%s)%s" % (m.group(3), first, more))
     return toks
 
